@@ -20,6 +20,7 @@ static long long va_islot[4]; static void *va_pslot[4];
 void *frgv_va_next(unsigned long size, int is_pointer)
 {
 	__CPROVER_assert(va_used < cur->nargs, "C19/C20: a variadic argument beyond those supplied is taken");
+	__CPROVER_assume(va_used < cur->nargs);
 	int k = va_used++;
 	if (is_pointer) { va_pslot[k] = cur->args[k].kind == 1 ? (void *)cur->args[k].s : (void *)(unsigned long)cur->args[k].i; return &va_pslot[k]; }
 	va_islot[k] = cur->args[k].i; return &va_islot[k];
